@@ -171,10 +171,28 @@ def audit(props_modules, prefix):
     return res, out
 
 
-def leanchecker(modules, timeout=3000):
-    p = subprocess.run(['lake', 'env', 'leanchecker'] + list(modules), cwd=LEAN_DIR,
-                       capture_output=True, text=True, timeout=timeout)
-    return p.returncode == 0, (p.stdout + p.stderr)[-4000:]
+def leanchecker(modules, timeout=3000, tries=3):
+    """Independent re-check of the compiled modules. Returns (ok, output).
+
+    ok is True (accepted), False (leanchecker rejected something: non-zero exit WITH a diagnostic) or None
+    (leanchecker could not run to completion: killed by a signal / out of memory / timed out / no output at
+    all - a resource problem of the machine, not a verdict; retried `tries` times with a pause)."""
+    out = ''
+    for attempt in range(tries):
+        try:
+            p = subprocess.run(['lake', 'env', 'leanchecker'] + list(modules), cwd=LEAN_DIR,
+                               capture_output=True, text=True, timeout=timeout)
+        except subprocess.TimeoutExpired:
+            out = 'leanchecker timed out'
+            continue
+        out = (p.stdout + p.stderr)[-4000:]
+        if p.returncode == 0:
+            return True, out
+        if p.returncode > 0 and p.returncode not in (137, 139, 143) and out.strip():
+            return False, out
+        out = f'leanchecker did not complete (rc={p.returncode}, output {out.strip()[:200]!r})'
+        time.sleep(20 * (attempt + 1))
+    return None, out
 
 
 def run_driver(name, lines, timeout=3000):
